@@ -163,6 +163,24 @@ theorem matches_spec (eqv : Val → Val → Bool) (sig : Sig) (cfg : Config) (h 
   exact ⟨w, w', hb, hm, fun recv xs =>
     invoke_inv eqv sig { dflt := cfg.dflt, conds := cfg.conds ++ pairConds ps } w' hi' _ xs (normalize_encode sig recv xs)⟩
 
+/-- A first `Returns()` without any value is `Return()` (repaired mockers): for a function with results it is refused with
+    the result-count error instead of installing a stub that panics on every call; for a result-less function it
+    installs the empty default, on which conditions can then be registered as after any default. -/
+theorem first_empty_returns_checked (sig : Sig) :
+    first sig (.returns []) = first sig (.ret 0 0) ∧
+    (sig.numOut ≠ 0 → first sig (.returns []) = .error .retlen) ∧
+    (sig.numOut = 0 → ∃ w, first sig (.returns []) = .ok w ∧ Inv sig (some 0) [] w) := by
+  refine ⟨rfl, ?_, ?_⟩
+  · intro h
+    have : 0 < sig.numOut := Nat.pos_of_ne_zero h
+    simp [first, createWhen, this, bind, Except.bind, throw, throwThe, MonadExceptOf.throw]
+  · intro h
+    have := createWhen_dflt_inv sig 0
+    rw [h] at this
+    exact this
+
+example : first { nIn := 1, variadic := false, isMethod := false, numOut := 1 } (.returns []) = .error .retlen := by rfl
+
 /-! ## The clauses of the property, declaratively -/
 
 private theorem find_none (eqv : Val → Val → Bool) (cfg : Config) (xs : List Val) (hnone : ∀ p ∈ cfg.conds, ¬ Holds eqv p.1 xs) :
